@@ -132,6 +132,42 @@ theorem C11_presentations_success_partial (ext : Ext) (fields : List Field) (row
   obtain ⟨arrs2, h2⟩ := hcomplete hok
   exact ⟨arrs2, h2, C11_presentations ext fields rows1 rows2 arrs1 arrs2 hmap hschema hcov hsafe hraw1 hraw2 hsame h1 h2⟩
 
+/-! ### where the documented mapping is undefined, the conversion is refused -/
+
+/-- **no documented value ⇒ refused.**  If some record of a batch has no documented value (`interpRow` is an error:
+an absent non-nullable field, a field given twice, a value the column cannot hold, …), `to_marrow` does not succeed —
+in any presentation.  (Contrapositive of the soundness half of `C01_build_decode`.) -/
+theorem C11_undefined_refused (ext : Ext) (fields : List Field) (rows : List SVal)
+    (hmap : ∀ f ∈ fields, Lemmas.C03.Map2F f) (hschema : ∀ f ∈ fields, Lemmas.C03.SchemaOKF f)
+    (hcov : fields.all Build.coveredF = true)
+    (hsafe : ∀ root0, newRoot fields = .ok root0 → Safe root0)
+    (hraw : ∀ x ∈ rows, noRaw x = true)
+    (x : SVal) (hx : x ∈ rows) (e : Fail) (hbad : interpRow ext fields x = .error e) :
+    ∀ arrs, toMarrow ext fields rows ≠ .ok arrs := by
+  intro arrs h
+  obtain ⟨_, cols, _, _, _, hr⟩ := C01.C01_build_decode ext fields rows arrs hmap hschema hcov hsafe hraw h
+  obtain ⟨i, hi, rfl⟩ := List.getElem_of_mem hx
+  rw [hr i hi] at hbad
+  cases hbad
+
+/-- a record that leaves out a non-nullable column, or gives a column twice, is refused by `to_marrow` (root level;
+the same at any nesting depth through `interpDT`, `absent_required_is_error` / `duplicate_is_error`) -/
+theorem C11_missing_or_duplicate_refused (ext : Ext) (fields : List Field) (rows : List SVal)
+    (hmap : ∀ f ∈ fields, Lemmas.C03.Map2F f) (hschema : ∀ f ∈ fields, Lemmas.C03.SchemaOKF f)
+    (hcov : fields.all Build.coveredF = true)
+    (hsafe : ∀ root0, newRoot fields = .ok root0 → Safe root0)
+    (hraw : ∀ x ∈ rows, noRaw x = true)
+    (nm : String) (fs : SFields) (hx : SVal.record nm fs ∈ rows) (f : Field) (hf : f ∈ fields)
+    (hbad : (f.nullable = false ∧ SFields.count f.name fs = 0) ∨ 2 ≤ SFields.count f.name fs) :
+    ∀ arrs, toMarrow ext fields rows ≠ .ok arrs := by
+  have hf' : f ∈ (Fields.ofList fields).toList := by rw [Fields.toList_ofList]; exact hf
+  have : ∃ e, interpRow ext fields (.record nm fs) = .error e := by
+    rcases hbad with ⟨h1, h2⟩ | h
+    · exact absent_required_is_error ext _ false [] nm fs f hf' h1 h2
+    · exact duplicate_is_error ext _ false [] nm fs f hf' h
+  obtain ⟨e, he⟩ := this
+  exact C11_undefined_refused ext fields rows hmap hschema hcov hsafe hraw _ hx e he
+
 /-! ### along ArrayBuilder histories -/
 
 /-- **C11 along histories.**  Two histories on builders of the same schema whose batches are, batch by batch and record
@@ -238,6 +274,15 @@ example : ∀ arrs1 arrs2, toMarrow {} exFields exRows1 = .ok arrs1 → toMarrow
         (.cons (.bytes "$.b" .utf8 (some []) [0] []) ⟨"b", true, []⟩ .nil)) [none, none] 0 [false, false]) from by decide] at h0
     cases h0
     simp [Safe, SafeL]
+
+/-- absent required field `a` / field `b` given twice: no documented value, refused -/
+example : (∃ e, interpRow {} exFields (.record "R" (.cons "b" 1 (.str "x") .nil)) = .error e) ∧
+    (∃ e, interpRow {} exFields (.record "R" (.cons "b" 1 .none (.cons "a" 0 (.int .i32 1) (.cons "b" 1 .none .nil)))) = .error e) ∧
+    (toMarrow {} exFields [.record "R" (.cons "b" 1 (.str "x") .nil)]).isOk = false ∧
+    (toMarrow {} exFields [.record "R" (.cons "b" 1 .none (.cons "a" 0 (.int .i32 1) (.cons "b" 1 .none .nil)))]).isOk = false :=
+  ⟨absent_required_is_error {} _ false [] "R" _ (.mk "a" .int32 false []) (by simp [exFields, Fields.ofList, Fields.toList]) rfl rfl,
+   duplicate_is_error {} _ false [] "R" _ (.mk "b" .utf8 true []) (by simp [exFields, Fields.ofList, Fields.toList]) (by decide),
+   by decide +kernel, by decide +kernel⟩
 
 /-- `Items([7u8, 9u8])` against `[item: Int32]`: accepted, and the column decodes to 7, 9 -/
 example : (toMarrow {} [.mk "item" .int32 false []] ([SVal.int .u8 7, .int .u8 9].map (serItem 0))).map (·.map decodeAll) =
